@@ -218,6 +218,13 @@ def correspond(ctx, scale):
         for mode in ('eval', 'train'):
             q.train(mode == 'train')
             x = torch.randn(*shapes(lay, dim, rng)) * rng.choice([0.5, 1.5])
+            if mode == 'eval':
+                x = torch.relu(x)          # exact zeros (ReLU-activated / zero-padded features)
+                if name.startswith('simvq'):
+                    if lay == 'seq':
+                        x[0, 0] = 0.0      # one all-zero input vector, deterministically
+                    else:
+                        x[0, :, 0] = 0.0
             ev += 1
             bump(name)
             key = f'{name}:layout={lay}:mode={mode}'
@@ -229,6 +236,17 @@ def correspond(ctx, scale):
             except Exception as ex:
                 fail(key + ':decode-raises', f'{name} ({lay}, {mode}): indices_to_codes(indices) raised {type(ex).__name__}: {str(ex)[:150]}', dict(name=name, layout=lay, mode=mode))
                 continue
+            # tokens whose input vector is exactly zero are reported under their own key (rotation trick: see DESIGN, D21)
+            zero_tok = None
+            if name.startswith('simvq'):
+                feat_axis = 1 if lay != 'seq' else -1
+                zero_tok = (x.abs().sum(dim=feat_axis, keepdim=True) == 0)
+                if bool(zero_tok.any()):
+                    zt = zero_tok.expand_as(out)
+                    if not torch.allclose(dec[zt], out[zt], atol=1e-5):
+                        fail(f'{name}:zero-input-vector', f'{name} ({lay}, {mode}): for an all-zero input vector the forward output is not the code its index decodes to (max diff {(dec[zt] - out[zt]).abs().max().item():g})',
+                             dict(name=name, layout=lay, mode=mode))
+                    dec, out = torch.where(zt, torch.zeros_like(dec), dec), torch.where(zt, torch.zeros_like(out), out)
             ok, why = close(dec, out, exact and mode == 'eval')
             nt += idx.unique().numel() >= 2
             if not ok:
